@@ -7,6 +7,7 @@
   under standard precedence, every member indivisible — the property's reading.
 -/
 import GormModel.Lemmas.Where
+import GormModel.Lemmas.WhereSlices
 import GormModel.Lemmas.WhereRec
 namespace Gorm
 
